@@ -15,6 +15,7 @@
 #include <atomic>
 #include <cstddef>
 #include <cstdint>
+#include <thread>
 #include <type_traits>
 #include <utility>
 
@@ -180,6 +181,9 @@ namespace pika {
             std::atomic<std::uint64_t> state_;
             stop_callback_base* callbacks_ = nullptr;
             pika::threads::detail::thread_id_type signalling_thread_;
+            // threads that are not pika threads all have the invalid thread id:
+            // they are told apart by their OS thread id
+            std::thread::id signalling_os_thread_;
         };
 
     }    // namespace detail
